@@ -140,8 +140,7 @@ void run_roundtrip() {
         long bad = -1;
         for (size_t k = 0; ok && k < (size_t)A->size(); ++k)
             if (pool.v[R2.data()[k].h] != c14::src_poly(EX, k)) { ok = false; bad = (long)k; }
-        std::printf(" | ok %s bad=%ld\n", ok ? "" : "FAIL", bad);
-        if (!ok) std::printf("roundtrip-detail | FAIL\n");
+        std::printf(" | %s bad=%ld\n", ok ? "ok" : "FAIL first wrong cell", bad);
     });
 }
 
